@@ -514,3 +514,47 @@ func withHelpers(f *ssa.Function, depth int) []*ssa.Function {
 	walk(f, depth)
 	return out
 }
+
+// helperBlocks: the basic blocks of f and of the same-package helpers and closures it calls
+// (withHelpers), for rules that ask whether an instruction exists in the code implementing f.
+// Relations between two instructions (dominance, loops) are meaningful only within one
+// function: callers compare Parent() first.
+func helperBlocks(f *ssa.Function, depth int) []*ssa.BasicBlock {
+	var out []*ssa.BasicBlock
+	for _, g := range withHelpers(f, depth) {
+		out = append(out, g.Blocks...)
+	}
+	return out
+}
+
+// directCallSites: every static call of f in the module, and whether f is also used as a
+// value (stored, passed, deferred through a variable), in which case its callers are unknown.
+func directCallSites(p *Program, f *ssa.Function) (calls []ssa.CallInstruction, asValue bool) {
+	for g := range p.AllFns {
+		if g.Blocks == nil || !fnInModule(g) {
+			continue
+		}
+		for _, b := range g.Blocks {
+			for _, ins := range b.Instrs {
+				if call, ok := ins.(ssa.CallInstruction); ok && call.Common().StaticCallee() == f {
+					calls = append(calls, call)
+					// f passed to itself as an argument would still be a value use
+					for _, a := range call.Common().Args {
+						if a == ssa.Value(f) {
+							asValue = true
+						}
+					}
+					continue
+				}
+				var ops []*ssa.Value
+				for _, op := range ins.Operands(ops) {
+					if op != nil && *op == ssa.Value(f) {
+						asValue = true
+					}
+				}
+			}
+		}
+	}
+	sort.Slice(calls, func(i, j int) bool { return calls[i].Pos() < calls[j].Pos() })
+	return calls, asValue
+}
